@@ -1,40 +1,74 @@
 """C07 — a transfer stores the dataset once, byte-identical, and announces it once.
 
-Tie: two or three real DataServer shells (real recv_loop body one iteration at a time, real
-Listener / send_data / callback framing) against Model/Transfer.lean, op by op: stores, awaiting
-sets, acks, invalid, futures, listener state, socket queues, frames on the wire, announcements.
-Oracle: written from the property text only (see `oracle`).
+Tie: two or three real DataServer objects (real __init__, real recv_loop body one iteration at a time, real
+Listener / send_data / callback framing), each behind its real Executor front (recv_loop branches for
+DatasetPublished / DatasetTransmitFailure / DatasetPurge) and on top of its REAL shm store (cascade.shm.client ->
+api.ser/deser -> LocalServer.start dispatch -> Manager -> POSIX segments), commands built by the real
+Bridge.transmit / fetch, against Model/Transfer.lean, op by op: stores (bytes re-read from the segments), open
+allocations, awaiting sets, acks, invalid, futures with their stage, listener state, socket queues, frames on the
+wire, the executor's dataset set and socket, every announcement / failure report / forwarded message.
+Oracle: written from the property text only (see `oracle`), fed by what reached the real shm Manager and the fake
+sockets, not by the data server's own tables.
 """
 import glob
 import json
 
 PROPERTY = "C07"
-LEVEL_TEXT = ("Lean theorems over Model/Transfer.lean (DataServer.recv_loop / maybe_clean / send_payload / store_payload / purge branch / 4 s "
-              "retry rule, Listener Syn-ack-dedup framing, shm allocate-conflict/get/purge): for every history of transfer, fetch and purge "
-              "commands on any number of hosts, every interleaving of main loop, pool jobs and network, and every pattern of loss, duplication "
-              "and delay of payload and confirmation frames: at most one successful store per (dataset, host) and one copy in the store, stored "
-              "and fetched bytes and deser_fun equal the source's, exactly one announcement per arrival and none for a redundant transfer, a "
-              "due unconfirmed transfer is re-submitted by the next loop iteration and never after its ack or after the purge, nothing is stored "
-              "or sent for a dataset after its purge, the shm purge happens with no future of that dataset in progress. Unbounded in history "
-              "length, hosts, datasets; tied to the real DataServer by an op-by-op correspondence check.")
+LEVEL_TEXT = ("Lean theorems over Model/Transfer.lean (DataServer.recv_loop / maybe_clean / purge branch / 4 s retry rule; send_payload and "
+              "store_payload as separate stages - validate+get | send+close, allocate | write+close | announce callback - each of which an "
+              "environment fault (shm under memory pressure, failing close, failing local push, exception escaping into the Future) may hit; "
+              "Listener Syn-ack-dedup framing; the shm contract allocate-conflict / get / purge where a purge of an unknown key is NOT an "
+              "error; Executor.recv_loop's forwarding of announcements and failures and its purge filter): for every history of transfer, "
+              "fetch and purge commands on any number of hosts, every interleaving of main loop, pool-job stages, executor and network, every "
+              "pattern of loss, duplication and delay of payload and confirmation frames, every fault: at most one successful store per "
+              "(dataset, host) and one copy in the store; stored, sent and fetched bytes and deser_fun equal the source's; at most one "
+              "announcement per (dataset, host), none for a redundant transfer, never more than stores, with the exact balance stores = "
+              "announcements + failures reported at the announce stage + store jobs between close and callback, and the executor forwards each "
+              "announcement to the controller exactly once; once the data server has handled a purge - also when it overtook the payload and "
+              "shm never held the dataset - nothing of it is stored, announced, sent or held there again; the shm purge is issued with no "
+              "future of that dataset in progress; a due unconfirmed transfer is re-submitted by the next iteration, per index (independent "
+              "of other confirmations), never after its ack or the purge; every DatasetTransmitFailure raised is forwarded to the controller "
+              "exactly once; the executor forwards a purge iff the dataset is in Executor.datasets, which holds iff its last action about it "
+              "was the announcement. Existence half of 'exactly one copy' as progress theorems from quiescent hosts (_partial): a payload "
+              "frame that gets through is stored with the payload's bytes, announced with its index and acked; an overdue transfer completes "
+              "in five steps once one copy of payload and ack get through; a forwarded purge is executed by the data server's next iteration "
+              "whatever its pool is doing (purge end-to-end, _partial under 'dataset in Executor.datasets', _full_fails: a purge the executor "
+              "drops lets a later payload in). Unbounded in history length, hosts, datasets; tied to the real code by an op-by-op correspondence "
+              "check that runs the real shm client, server dispatch, Manager and segments.")
 LEVEL_NOTE = ("modelled, not verified: data_server.py DataServer (recv_loop, maybe_clean, send_payload, store_payload), comms.py Listener._recv_one/"
-              "recv_messages + send_data/callback framing, the allocate/get/purge contract of shm/client.py; zmq sockets, the thread pool (jobs are "
-              "atomic, run in any order), the shm server and the clock are replaced by fakes; pickle is exercised by the real framing but trusted; "
-              "Executor.recv_loop's filter that drops a purge for a dataset it has not seen published is outside the model (DESIGN section 7)")
-TECHNIQUE = ("Lean 4 proof: inductive invariant over all interleavings of micro steps (main loop, pool threads, lossy/duplicating network), "
-             "refinement of the recv_loop iteration to micro steps + differential correspondence with real DataServer shells + property oracle")
+              "recv_messages + send_data/callback framing, executor.py Executor.recv_loop (DatasetPublished / DatasetTransmitFailure / DatasetPurge "
+              "branches), the allocate/get/purge/close contract of shm/client.py + dataset.Manager (no paging: capacity is never reached in the "
+              "model; memory pressure appears as a fault of the allocate / get stage); zmq sockets, the thread pool (a job runs stage by stage, "
+              "stages are atomic), the UDP socket to the shm server and the clock are replaced by fakes; pickle is exercised by the real framing but "
+              "trusted; commands and purges reach data server / executor exactly once (C06). Carried by the tie and the oracle only, not by a "
+              "theorem: the announcement's transmit_idx equals the stored payload's (announcement-wrong), Bridge issues each transmit index once "
+              "(transmit-idx-reused). c07_purge_waits has content at the operation level only (the micro step of the purge branch carries the "
+              "blocking wait as a guard); c07_failures_forwarded and c07_exec_purge_filter(b) relate independently defined events through the "
+              "executor's socket")
+TECHNIQUE = ("Lean 4 proof: inductive invariant (13 conjuncts) over all interleavings of micro steps (main loop, pool-job stages with faults, "
+             "executor, lossy/duplicating network), refinement of the recv_loop iteration to micro steps, symbolic evaluation for the progress "
+             "theorems + differential correspondence with real DataServer / Executor shells over the real shm stack + property oracle")
 LEAN_PROPS = ["EkwVerif.Props.C07"]
 LEAN_DRIVERS = ["C07"]
-RULE = ("random histories over 2-3 hosts and 1-3 datasets: transfer and fetch commands (unique idx, delivered at once or delayed and out of order, "
-        "redundant transfers to a host that already has the dataset), purges (mostly at holders, rarely at a non-holder), recv_loop iterations "
-        "fed with 0-3 frames (taken or duplicated, any order) batched with commands/purges, frame drops, controller receptions, pool jobs run "
-        "in any order, clock advances around the 4 s grace; followed by a loss-free drain. non-trivial = history with >=1 transfer and at "
-        "least one drop, duplicate or purge; distinct by content hash")
+RULE = ("random histories over 2-3 hosts and 1-3 datasets, commands built by the real Bridge.transmit/fetch: transfer and fetch commands (delivered "
+        "at once or delayed and out of order, redundant transfers to a host that already has the dataset), purges at holders, at hosts that "
+        "still expect the payload (the race) and at arbitrary hosts, half of them through the executor (forwarded or dropped by its filter), "
+        "recv_loop iterations fed with 0-3 frames (taken or duplicated, any order) batched with commands/purges, executor iterations, frame "
+        "drops, controller receptions, pool jobs run to their end or stage by stage in any order (70% of the histories), faults at every stage "
+        "(35% of the histories: allocate wait/capacity, get wait, writer close refused, announce push raising, send_data raising, reader close "
+        "raising after the send), clock advances around the 4 s grace; 30% of the histories open with a directed situation (a later transfer "
+        "acked while an earlier payload of the same source was lost; purge overtaking the payload; redundant payload after the purge); followed "
+        "by a loss-free drain. non-trivial = history with >=1 transfer and at least one drop, duplicate or purge; distinct by content hash")
 ASSUMPTIONS = [
-    "zmq sockets/poller, the thread pool, the shm client module and time_ns are replaced by in-process fakes; pool jobs are atomic",
-    "the fake shm client mirrors the real client: allocate of an existing key raises ConflictError, purge/get of an unknown key raise ValueError",
-    "command indices are unique (Bridge.transmit_idx_counter) and a command reaches its source exactly once (C06)",
-    "all initial copies of a dataset carry the same bytes and deser_fun",
+    "zmq sockets/poller, the UDP socket between shm client and shm server, the thread pool and time_ns are replaced by in-process fakes; the "
+    "stages of a pool job are atomic (boundaries: allocate granted, writer closed, get granted)",
+    "the shm store is the REAL one (client, api codec, LocalServer dispatch, Manager, POSIX segments); no other process uses it: a worker "
+    "reading a dataset while the data server purges it (Manager.delayed_purge) and paging are outside the model (C08/C09)",
+    "a fault is one-shot and hits one stage of one job; the failure report itself gets through",
+    "a command reaches its source data server exactly once and a purge its executor exactly once (C06); command indices come from the real "
+    "Bridge counter (checked by the oracle: transmit-idx-reused)",
+    "all initial copies of a dataset carry the same bytes and deser_fun; serialised datasets are non-empty (a zero-length dataset cannot be "
+    "published by its producer either: shm allocate(l=0) raises)",
     "md5-truncated shm keys of different datasets do not collide",
 ]
 
@@ -82,7 +116,18 @@ def _sched(rng):
     return [rng.randint(0, 3) for _ in range(rng.randint(0, 3))]
 
 
-def gen_case(rng, nops):
+def _fault_for(rng, job):
+    """a fault that fits the stage the job is at: (fault, how)"""
+    if job.name == "store_payload":
+        if job.stage == 0:
+            return "fail", rng.choice(["wait", "wait", "capacity exceeded"])
+        return "fail", "wait"
+    if job.stage == 0:
+        return "fail", "wait"
+    return rng.choice(["fail", "closeExc", "closeExc"]), "wait"
+
+
+def gen_case(rng, nops, with_run=False):
     from ekw.sim_c07 import World
     n = rng.randint(2, 3)
     nds = rng.randint(1, 3)
@@ -94,23 +139,162 @@ def gen_case(rng, nops):
             stores.append([h, d, val, "df%d" % d])
     case = {"n": n, "stores": stores, "ops": []}
     w = World(n, stores)
+    outs = []
+    try:
+        _gen_ops(rng, nops, w, case, nds, outs)
+        if not with_run:
+            return case
+        # the generating run IS the real run of the case: go on with the drain on the same world
+        ops = list(case["ops"])
+
+        def emit(op):
+            ops.append(op)
+            outs.append(w.apply(op))
+        w.drain_from = w.opno + 1
+        drain(w, emit)
+        w.final_store = {h: w.shm_view_fresh(h) for h in w.hosts}
+    finally:
+        w.close()
+    return case, ops, outs, w
+
+
+def _gen_ops(rng, nops, w, case, nds, outs):
     ops = case["ops"]
-    idx = 0
     undelivered = []
+    faulty = rng.random() < 0.35          # histories with shm / socket faults
+    staged = rng.random() < 0.7           # histories in which pool jobs are stopped between their stages
 
     def emit(op):
         ops.append(op)
-        w.apply(op)
+        outs.append(w.apply(op))
 
     def holders(d):
-        return [h for h in w.hosts if not w.crashed[h] and w.key(d) in w.stores[h]]
+        return [h for h in w.hosts if not w.crashed[h] and any(e[0] == d for e in w.shm_view(h)[0])]
 
-    for _ in range(nops):
+    def expecting(d):
+        """hosts that do not hold d but have a payload of d on the wire, in their socket or in a job"""
+        out = []
+        for h in w.hosts:
+            if w.crashed[h] or h in holders(d):
+                continue
+            a = w.aname(h)
+            wire = any(f[0] == a and len(f[1]) == 3 and w.frame_json(f)["p"]["ds"] == d for f in w.net)
+            sock = any(len(p) == 3 for p in w.srv[h].dlistener.socket.queue)
+            job = any(j.name == "store_payload" and w.job_ds(j) == d for j in w.pools[h].jobs)
+            if wire or sock or job:
+                out.append(h)
+        return out
+
+    def frame_of(idx):
+        for i, fr in enumerate(w.net):
+            if len(fr[1]) == 3 and w.frame_json(fr)["si"] == idx:
+                return i
+        return None
+
+    def cmd(d, src, tgt):
+        c = w.bridge_cmd(d, src, tgt)
+        via = c.pop("via")
+        c["k"] = "cmd"
+        if via != src:
+            c["misrouted"] = via
+        return c
+
+    def feed_frame(h, i):
+        emit({"op": "tick", "h": h, "inputs": [{"k": "frame", "i": i, "dup": False}], "sched": _sched(rng)})
+
+    # ---- directed openings (structured, all inputs valid): the situations the property text names
+    x = rng.random()
+    hs0 = holders(0)
+    if x < 0.10 and hs0:
+        # a LATER transfer of the same source is confirmed while the payload of an EARLIER one was lost
+        src = rng.choice(hs0)
+        others = [h for h in w.hosts if h != src]
+        t0 = rng.choice(others)
+        t1 = rng.choice(others + [0])
+        c0, c1 = cmd(0, src, t0), cmd(0, src, t1)
+        emit({"op": "tick", "h": src, "inputs": [c0, c1], "sched": _sched(rng)})
+        while w.pools[src].jobs:
+            emit({"op": "job", "h": src, "c": 0})
+        i = frame_of(c0["idx"])
+        if i is not None:
+            emit({"op": "drop", "i": i})
+        i = frame_of(c1["idx"])
+        if i is not None:
+            if t1 == 0:
+                emit({"op": "ctrl", "i": i, "dup": False})
+            else:
+                feed_frame(t1, i)
+                while w.pools[t1].jobs:
+                    emit({"op": "job", "h": t1, "c": 0})
+        acks = [j for j, fr in enumerate(w.net) if fr[0] == w.aname(src) and len(fr[1]) == 1]
+        if acks:
+            feed_frame(src, acks[0])
+        emit({"op": "adv", "d": rng.choice([4001, 5000, 9000])})
+        case.setdefault("opening", "ack-overtakes-lost-payload")
+    elif x < 0.20 and hs0:
+        # the purge reaches the target before the payload was stored; the payload comes late
+        src = rng.choice(hs0)
+        tgt = rng.choice([h for h in w.hosts if h != src])
+        c0 = cmd(0, src, tgt)
+        emit({"op": "tick", "h": src, "inputs": [c0], "sched": _sched(rng)})
+        while w.pools[src].jobs:
+            emit({"op": "job", "h": src, "c": 0})
+        if rng.random() < 0.5:
+            emit({"op": "tick", "h": tgt, "inputs": [{"k": "purge", "ds": 0}], "sched": _sched(rng)})
+        else:
+            w_pub = w.dsid(0) in w.exe[tgt].datasets
+            emit({"op": "etick", "h": tgt, "purges": [0]})
+            emit({"op": "tick", "h": tgt, "inputs": [] if w_pub else [{"k": "purge", "ds": 0}], "sched": _sched(rng)})
+        i = frame_of(c0["idx"])
+        if i is not None and rng.random() < 0.8:
+            feed_frame(tgt, i)
+        case.setdefault("opening", "purge-overtakes-payload")
+    elif x < 0.34:
+        # redundant transfers of one dataset to one target, the purge between the two payloads
+        cand = [(d, holders(d)) for d in range(nds)]
+        cand = [(d, hs) for d, hs in cand if len(hs) >= 2 and len(hs) < len(w.hosts)]
+        if cand:
+            d, hsd = rng.choice(cand)
+            s1, s2 = rng.sample(hsd, 2)
+            tgt = rng.choice([h for h in w.hosts if h not in hsd])
+            c0, c1 = cmd(d, s1, tgt), cmd(d, s2, tgt)
+            for sx, cx in ((s1, c0), (s2, c1)):
+                emit({"op": "tick", "h": sx, "inputs": [cx], "sched": _sched(rng)})
+                while w.pools[sx].jobs:
+                    emit({"op": "job", "h": sx, "c": 0})
+            i = frame_of(c0["idx"])
+            if i is not None:
+                feed_frame(tgt, i)
+                while w.pools[tgt].jobs:
+                    emit({"op": "job", "h": tgt, "c": 0})
+                emit({"op": "etick", "h": tgt, "purges": []})
+                emit({"op": "etick", "h": tgt, "purges": [d]})
+                emit({"op": "tick", "h": tgt, "inputs": [], "sched": _sched(rng)})
+            i = frame_of(c1["idx"])
+            if i is not None:
+                feed_frame(tgt, i)
+            case.setdefault("opening", "redundant-payload-after-purge")
+
+    attempts = 0
+    while len(ops) < nops and attempts < 4 * nops:
+        attempts += 1
         r = rng.random()
         alive = [h for h in w.hosts if not w.crashed[h]]
         if not alive:
             break
-        if r < 0.18:
+        part = [(h, i) for h in alive for i, j in enumerate(w.pools[h].jobs) if j.stage > 0]
+        if part and rng.random() < 0.45:
+            # a job that was stopped between two stages: mostly go on with it (the interesting interleavings
+            # are the few ops that happen while it sits there)
+            h, c = rng.choice(part)
+            job = w.pools[h].jobs[c]
+            if faulty and rng.random() < 0.3:
+                f, how = _fault_for(rng, job)
+                emit({"op": "jobstep", "h": h, "c": c, "fault": f, "how": how})
+            else:
+                emit({"op": "jobstep", "h": h, "c": c, "fault": "none"})
+            continue
+        if r < 0.14:
             d = rng.randrange(nds)
             hs = holders(d)
             x = rng.random()
@@ -121,57 +305,81 @@ def gen_case(rng, nops):
             else:
                 continue
             if rng.random() < 0.3:
-                tgt, daddr = 0, 0
+                tgt = 0
             else:
-                others = [h for h in w.hosts if h != src]
-                tgt = rng.choice(others)
-                daddr = tgt
-            c = {"k": "cmd", "source": src, "target": tgt, "daddr": daddr, "ds": d, "idx": idx}
-            idx += 1
+                tgt = rng.choice([h for h in w.hosts if h != src])
+            c = w.bridge_cmd(d, src, tgt)          # the real Bridge.transmit / Bridge.fetch builds the command
+            via = c.pop("via")
+            c["k"] = "cmd"
+            if via != src:
+                c["misrouted"] = via
             if rng.random() < 0.7:
                 emit({"op": "tick", "h": src, "inputs": _mk_inputs(rng, w, src, [c], 2), "sched": _sched(rng)})
             else:
                 undelivered.append(c)
-        elif r < 0.22:
+        elif r < 0.17:
             if not undelivered:
                 continue
             c = undelivered.pop(rng.randrange(len(undelivered)))
             emit({"op": "tick", "h": c["source"], "inputs": _mk_inputs(rng, w, c["source"], [c], 2), "sched": _sched(rng)})
-        elif r < 0.30:
+        elif r < 0.25:
             d = rng.randrange(nds)
             hs = holders(d)
+            ex = expecting(d)
             x = rng.random()
-            if x < 0.04:
-                h = rng.choice(alive)              # maybe a non-holder: shm purge error kills the server
-            elif hs and (len(hs) > 1 or x < 0.2):
+            if ex and x < 0.45:
+                h = rng.choice(ex)                 # the race: the purge overtakes the payload
+            elif x < 0.52:
+                h = rng.choice(alive)              # any host, holder or not
+            elif hs and (len(hs) > 1 or x < 0.7):
                 h = rng.choice(hs)
             else:
                 continue
             if any(c["source"] == h and c["ds"] == d for c in undelivered) and rng.random() < 0.9:
                 continue
-            emit({"op": "tick", "h": h, "inputs": _mk_inputs(rng, w, h, [{"k": "purge", "ds": d}], 2), "sched": _sched(rng)})
-        elif r < 0.58:
+            if rng.random() < 0.5:
+                # the way of the real system: controller -> executor -> (filter) -> data server
+                emit({"op": "etick", "h": h, "purges": [d] if rng.random() < 0.85 else [d, rng.randrange(nds)]})
+                if rng.random() < 0.6:
+                    emit({"op": "tick", "h": h, "inputs": _mk_inputs(rng, w, h, [], 2), "sched": _sched(rng)})
+            else:
+                emit({"op": "tick", "h": h, "inputs": _mk_inputs(rng, w, h, [{"k": "purge", "ds": d}], 2), "sched": _sched(rng)})
+        elif r < 0.52:
             cands = [h for h in alive if _frames_to(w, h)]
             if not cands:
                 continue
             h = rng.choice(cands)
             emit({"op": "tick", "h": h, "inputs": _mk_inputs(rng, w, h, [], 3) or _mk_inputs(rng, w, h, [], 3), "sched": _sched(rng)})
-        elif r < 0.64:
+        elif r < 0.56:
             if w.net:
                 emit({"op": "drop", "i": rng.randrange(len(w.net))})
-        elif r < 0.70:
+        elif r < 0.61:
             pos = [i for i, f in enumerate(w.net) if f[0] == "ctrl"]
             if pos:
                 emit({"op": "ctrl", "i": rng.choice(pos), "dup": rng.random() < 0.25})
-        elif r < 0.88:
+        elif r < 0.85:
             hs = [h for h in alive if w.pools[h].jobs]
-            if hs:
-                emit({"op": "job", "h": rng.choice(hs), "c": rng.randint(0, 3)})
-        elif r < 0.96:
+            if not hs:
+                continue
+            st = [h for h in hs if any(j.name == "store_payload" for j in w.pools[h].jobs)]
+            h = rng.choice(st) if st and rng.random() < 0.6 else rng.choice(hs)
+            c = rng.randint(0, 3)
+            job = w.pools[h].jobs[c % len(w.pools[h].jobs)]
+            x = rng.random()
+            if faulty and x < 0.22:
+                f, how = _fault_for(rng, job)
+                emit({"op": "jobstep", "h": h, "c": c, "fault": f, "how": how})
+            elif staged and x < 0.6:
+                emit({"op": "jobstep", "h": h, "c": c, "fault": "none"})
+            else:
+                emit({"op": "job", "h": h, "c": c})
+        elif r < 0.90:
+            hs = [h for h in w.hosts if w.exe[h].mlistener.socket.queue]
+            emit({"op": "etick", "h": rng.choice(hs) if hs else rng.choice(w.hosts), "purges": []})
+        elif r < 0.97:
             emit({"op": "adv", "d": rng.choice([300, 1000, 2500, 3999, 4000, 4001, 5000, 9000])})
         else:
             emit({"op": "tick", "h": rng.choice(alive), "inputs": [], "sched": _sched(rng)})
-    return case
 
 
 def drain(w, emit, rounds=8):
@@ -195,6 +403,10 @@ def drain(w, emit, rounds=8):
             while not w.crashed[h] and w.pools[h].jobs:
                 busy = True
                 emit({"op": "job", "h": h, "c": 0})
+        for h in w.hosts:
+            if w.exe[h].mlistener.socket.queue:
+                busy = True
+                emit({"op": "etick", "h": h, "purges": []})
         waiting = any(w.srv[h].awaiting_confirmation or w.srv[h].futs_in_progress for h in w.hosts if not w.crashed[h])
         if not busy and not waiting and not any(f[0] == "ctrl" or not w.crashed[w.aid(f[0])] for f in w.net):
             break
@@ -204,7 +416,7 @@ def drain(w, emit, rounds=8):
 def run_case(case, with_drain=True):
     """Run on the real code. Returns (all ops incl. drain, outputs, world)."""
     from ekw.sim_c07 import World
-    w = World(case["n"], case["stores"])
+    w = World(case["n"], case["stores"], case.get("published"))
     ops, outs = [], []
 
     def emit(op):
@@ -213,15 +425,20 @@ def run_case(case, with_drain=True):
     for op in case["ops"]:
         emit(op)
     w.drain_from = w.opno + 1
-    if with_drain:
-        drain(w, emit)
+    try:
+        if with_drain:
+            drain(w, emit)
+        w.final_store = {h: w.shm_view_fresh(h) for h in w.hosts}
+    finally:
+        w.close()
     return ops, outs, w
 
 
 # ----------------------------------------------------------------------------- oracle
 
 def oracle(case, w):
-    """Reference from the property text only; reads the raw observations of the real run.
+    """Reference from the property text only; reads the raw observations of the real run (what reached the
+    real shm Manager, what was pushed to which socket) and the real segments at the end.
     Returns a list of (kind, what)."""
     truth = {}
     has = set()
@@ -231,9 +448,17 @@ def oracle(case, w):
     fails = []
     purged = set()
     acked = set()
-    pending_ann = {}          # h -> (ds, idx, op) : stored, announcement not yet seen
+    pending_ann = {}          # (h, ds) -> (idx, op) : copy written and closed, announcement not yet seen
+    ann_fwd = {}              # (h, ds, idx) -> [announced, forwarded to the controller]
+    n_fail_pushed = {h: 0 for h in w.hosts}
+    n_fail_ctrl = {h: 0 for h in w.hosts}
+    faults = []               # (op, h, what)
+    failed_store = set()      # (h, ds): a store of ds on h ran into a reported failure
+    failed_idx = set()        # transfer indices with a reported failure
     got = {}
     cmds = []
+    seen_idx = {}
+    last_done = {}            # (h, idx) -> (time the last send job of the transfer returned, raised?, ds)
     due = None                # (op, h, {idx}) expectations of the current tick
     submitted_in_op = set()
     retries_in_op = []
@@ -251,6 +476,8 @@ def oracle(case, w):
     for o in w.observations:
         k = o["kind"]
         h = o.get("h")
+        if o["op"] == 0:
+            continue          # initial contents written by the harness
         if due is not None and o["op"] != due[0]:
             close_due()
         if k == "stored":
@@ -263,17 +490,21 @@ def oracle(case, w):
             if (o["value"].hex(), o["deser"]) != truth.get(d):
                 what = "deser_fun" if o["value"].hex() == truth.get(d, ("",))[0] else "bytes"
                 fails.append(("bytes-differ", f"op {o['op']}: {what} of dataset {d} stored on host {h} = {(o['value'].hex(), o['deser'])}, source has {truth.get(d)}"))
-            if h in pending_ann:
-                fails.append(("arrival-not-announced", f"dataset {pending_ann[h][0]} arrived on host {h} (op {pending_ann[h][2]}) without DatasetPublished"))
-            pending_ann[h] = (d, o.get("idx"), o["op"])
+            if (h, d) in pending_ann:
+                fails.append(("arrival-not-announced", f"dataset {d} arrived on host {h} (op {pending_ann[(h, d)][1]}) without DatasetPublished"))
+            pending_ann[(h, d)] = (o.get("idx"), o["op"])
         elif k == "announced":
-            exp = pending_ann.pop(h, None)
-            if exp is None or exp[0] != o["ds"]:
+            exp = pending_ann.pop((h, o["ds"]), None)
+            if exp is None:
                 fails.append(("spurious-announcement", f"op {o['op']}: host {h} announced dataset {o['ds']} (transmit_idx {o['idx']}) without a new arrival"))
-                if exp is not None:
-                    pending_ann[h] = exp
-            elif exp[1] != o["idx"] or o["origin"] != w.hname(h):
-                fails.append(("announcement-wrong", f"op {o['op']}: announcement {o} does not match the stored payload idx {exp[1]}"))
+            elif exp[0] != o["idx"] or o["origin"] != w.hname(h):
+                fails.append(("announcement-wrong", f"op {o['op']}: announcement {o} does not match the stored payload idx {exp[0]}"))
+            ann_fwd.setdefault((h, o["ds"], o["idx"]), [0, 0])[0] += 1
+        elif k == "ctrl-published":
+            e = ann_fwd.setdefault((h, o["ds"], o["idx"]), [0, 0])
+            e[1] += 1
+            if e[1] > e[0]:
+                fails.append(("announcement-forwarded-twice", f"op {o['op']}: the executor of host {h} told the controller about dataset {o['ds']} (transmit_idx {o['idx']}) {e[1]} times, the data server announced it {e[0]} times"))
         elif k == "sent":
             if (o["value"].hex(), o["deser"]) != truth.get(o["ds"]):
                 what = "deser_fun" if o["value"].hex() == truth.get(o["ds"], ("",))[0] else "bytes"
@@ -288,8 +519,35 @@ def oracle(case, w):
             d = w.key2ds.get(o["key"], -1)
             if any(x == d for x in o["pool_pending"]):
                 fails.append(("purge-no-wait", f"op {o['op']}: host {h} purged dataset {d} from shm while a send/store job of it was still in progress"))
+            elif o["pre"]["readers"] > 0:
+                fails.append(("purge-no-wait", f"op {o['op']}: host {h} asked shm to purge dataset {d} while {o['pre']['readers']} read(s) of it were open"))
+            if o["answer"] != "ok":
+                fails.append(("purge-error", f"op {o['op']}: shm purge of dataset {d} on host {h} answered {o['answer']}"))
             has.discard((h, d))
             purged.add((h, d))
+        elif k == "purge-to-executor":
+            if o["known"]:
+                fwd = [x for x in w.observations if x["kind"] == "purge-forwarded" and x["op"] == o["op"] and x["h"] == h and x["ds"] == o["ds"]]
+                if not fwd:
+                    fails.append(("purge-not-forwarded", f"op {o['op']}: the executor of host {h} did not hand the purge of dataset {o['ds']} (which it had seen published) to its data server"))
+        elif k == "fault":
+            faults.append((o["op"], h, o["what"]))
+        elif k == "failure":
+            n_fail_pushed[h] += 1
+            fault_here = any(fo == o["op"] and fh == h for fo, fh, _ in faults) or \
+                (o.get("src") == "future" and any(fh == h and fw == "close-reader" and fo <= o["op"] for fo, fh, fw in faults))
+            c = next((c for hh, c in cmds if hh == h and c["idx"] == o.get("idx")), None) if o.get("src") == "send" else None
+            legit = o.get("src") == "send" and c is not None and \
+                (c["source"] != h or c["target"] == h or (h, c["ds"]) not in has)
+            if not fault_here and not legit:
+                fails.append(("spurious-failure", f"op {o['op']}: data server of host {h} reported DatasetTransmitFailure ({o.get('src')} of transfer {o.get('idx')}, dataset {o.get('ds')}: {o['detail'][-80:]}) although nothing had gone wrong"))
+            if o.get("src") == "store":
+                failed_store.add((h, o["ds"]))
+                if o.get("stage") == 2:
+                    pending_ann.pop((h, o["ds"]), None)      # reported instead of announced
+            failed_idx.add(o.get("idx"))
+        elif k == "ctrl-failure":
+            n_fail_ctrl[h] += 1
         elif k == "tick-end":
             # the socket is FIFO: what the listener read in this iteration is the head of the queue
             read = sock_before[:len(sock_before) - o["sock_left"]]
@@ -303,7 +561,17 @@ def oracle(case, w):
             retries_in_op = []
         elif k == "cmd":
             cmds.append((h, o["c"]))
+            i = o["c"]["idx"]
+            if i in seen_idx and seen_idx[i] != (o["c"]["source"], o["c"]["target"], o["c"]["ds"]):
+                fails.append(("transmit-idx-reused", f"op {o['op']}: the controller's Bridge issued transmit index {i} for two different commands: {seen_idx[i]} and {(o['c']['source'], o['c']['target'], o['c']['ds'])}"))
+            seen_idx.setdefault(i, (o["c"]["source"], o["c"]["target"], o["c"]["ds"]))
+            if o["c"].get("misrouted") is not None:
+                fails.append(("command-misrouted", f"op {o['op']}: the Bridge addressed transfer {i} (source {o['c']['source']}) to the data server of host {o['c']['misrouted']}"))
+        elif k == "job-done":
+            if o["job"] == "send_payload":
+                last_done[(h, o["idx"])] = (o["now"], o["exc"], o["ds"])
         elif k == "submit-send":
+            last_done.pop((h, o["idx"]), None)
             submitted_in_op.add((h, o["idx"]))
             if o["retry"]:
                 retries_in_op.append(o)
@@ -315,36 +583,65 @@ def oracle(case, w):
             sock_before = o["sock"]
             blocked_idx = {f["m"]["idx"] for f in o["sock"] if f["t"] == "plain" and f["m"]["k"] == "ack"}
             blocked_ds = {f["m"]["ds"] for f in o["sock"] if f["t"] == "plain" and f["m"]["k"] == "purge"}
-            idxs = {i for i, (d, at) in o["awaiting"].items()
-                    if at > 0 and at < (o["now"] - GRACE_MS) * 1_000_000 and i not in o["acks"] and i not in blocked_idx
-                    and d not in o["invalid"] and d not in blocked_ds}
+            # what is due is derived from what was OBSERVED (when the last send job of a transfer returned, which
+            # confirmations this host has read, which datasets it has purged), not from the server's own tables
+            idxs = {i for (hh, i), (t_done, exc, d) in last_done.items()
+                    if hh == h and not exc and t_done + GRACE_MS < o["now"] and (h, i) not in acked and i not in blocked_idx
+                    and (h, d) not in purged and d not in blocked_ds}
             due = (o["op"], h, idxs, [False])
         elif k == "crashed":
             if due is not None:
                 due[3][0] = True
+            if o["why"] not in (1, 2):
+                fails.append(("data-server-died", f"op {o['op']}: recv_loop of host {h} raised {o['what']}"))
     close_due()
-    for h, (d, i, op) in pending_ann.items():
+    drained = getattr(w, "drained", True)
+    for (h, d), (i, op) in pending_ann.items():
+        if w.crashed[h] or (not drained and any(j.name == "store_payload" for j in w.pools[h].jobs)):
+            continue
         fails.append(("arrival-not-announced", f"dataset {d} arrived on host {h} (op {op}) without DatasetPublished"))
-    # end state
+    # every injected fault is reported: by the job it hit (same op) or, when the exception escaped into the
+    # Future, by the next maybe_clean of that data server
+    fobs = [[o["op"], o["h"], o.get("src"), False] for o in w.observations if o["kind"] == "failure"]
+    for op, h, what in faults:
+        if what == "close-reader":
+            m = next((x for x in fobs if x[1] == h and not x[3] and x[2] == "future" and x[0] >= op), None)
+        else:
+            m = next((x for x in fobs if x[1] == h and not x[3] and x[2] != "future" and x[0] == op), None)
+        if m is not None:
+            m[3] = True
+        elif what != "close-reader" or (drained and not w.crashed[h]):
+            fails.append(("failure-not-reported", f"op {op}: a {what} fault hit a job of host {h} and no DatasetTransmitFailure was raised"))
+    if drained:
+        for h in w.hosts:
+            if n_fail_ctrl[h] != n_fail_pushed[h]:
+                fails.append(("failure-not-reported", f"data server of host {h} raised {n_fail_pushed[h]} DatasetTransmitFailure, its executor passed {n_fail_ctrl[h]} to the controller"))
+        for (h, d, i), (a, f) in ann_fwd.items():
+            if f < a:
+                fails.append(("announcement-not-forwarded", f"host {h} announced dataset {d} (transmit_idx {i}) and its executor never told the controller"))
+    # end state: what is REALLY in the stores (segments re-read)
+    final = getattr(w, "final_store", None) or {h: w.shm_view_fresh(h) for h in w.hosts}
     for h in w.hosts:
+        if final[h]["other"]:
+            fails.append(("shm-state", f"host {h}: datasets in an unexpected shm state {final[h]['other']}"))
         for d in truth:
-            present = w.key(d) in w.stores[h]
+            present = d in final[h]["store"]
             if (h, d) in purged and present:
                 fails.append(("resurrection", f"dataset {d} is on host {h} at the end although it was purged there"))
-            if present and (w.stores[h][w.key(d)][0].hex(), w.stores[h][w.key(d)][1]) != truth[d]:
-                fails.append(("bytes-differ", f"host {h} holds {w.stores[h][w.key(d)]} for dataset {d}, source had {truth[d]}"))
-    if getattr(w, "drained", True):
+            if present and final[h]["store"][d] != truth[d]:
+                fails.append(("bytes-differ", f"host {h} holds {final[h]['store'][d]} for dataset {d}, source had {truth[d]}"))
+    if drained:
         for h, c in cmds:
             s, t, d = c["source"], c["target"], c["ds"]
-            if s != h or w.crashed[s] or (s, d) in purged or w.key(d) not in w.stores[s]:
+            if s != h or w.crashed[s] or (s, d) in purged or d not in final[s]["store"] or c["idx"] in failed_idx:
                 continue
             if t == 0:
                 if got.get(c["idx"], 0) != 1:
                     fails.append(("fetch-not-delivered", f"fetch {c['idx']} of dataset {d} from host {s}: controller received it {got.get(c['idx'], 0)} times after a loss-free drain"))
             elif t in w.hosts and c["daddr"] == t:
-                if w.crashed[t] or (t, d) in purged:
+                if w.crashed[t] or (t, d) in purged or (t, d) in failed_store:
                     continue
-                if w.key(d) not in w.stores[t]:
+                if d not in final[t]["store"]:
                     fails.append(("transfer-not-completed", f"transfer {c['idx']} of dataset {d} {s}->{t}: target does not hold it after a loss-free drain"))
     return fails
 
@@ -356,7 +653,8 @@ def model_outs(cases_ops):
     from ekw.sim_c07 import canon_model
     lines = []
     for case, ops in cases_ops:
-        lines.append(json.dumps({"op": "init", "n": case["n"], "stores": case["stores"]}))
+        lines.append(json.dumps({"op": "init", "n": case["n"], "stores": case["stores"],
+                                 "published": case.get("published", [[e[0], e[1]] for e in case["stores"]])}))
         lines += [json.dumps(o) for o in ops]
     res = lean_drive("C07", lines)
     outs = []
@@ -415,10 +713,13 @@ def _stats(ctx, case, ops, w):
     ctx.count("ops", nhist)
     ctx.count("drain_ops", len(ops) - nhist)
     ctx.count("hosts:%d" % case["n"])
+    ctx.count("opening:" + case.get("opening", "random"))
     kinds = {}
     for o in w.observations:
         if o["op"] >= w.drain_from:
             break
+        if o["op"] == 0:
+            continue
         kinds[o["kind"]] = kinds.get(o["kind"], 0) + 1
         if o["kind"] == "fed":
             if o["dup"]:
@@ -431,8 +732,23 @@ def _stats(ctx, case, ops, w):
             ctx.count("retries")
         elif o["kind"] == "crashed":
             ctx.count("server_crash_why_%d" % o["why"])
+        elif o["kind"] == "shm-purge":
+            ctx.count("shm_purge:" + ("of-" + o["pre"]["status"] if o["pre"]["present"] else "of-unknown-key"))
+        elif o["kind"] == "fault":
+            ctx.count("fault:" + o["what"])
+        elif o["kind"] == "jobstep":
+            ctx.count("jobstep:%s@%d%s" % (o["job"], o["stage"], "" if o["fault"] == "none" else "+" + o["fault"]))
+        elif o["kind"] == "failure":
+            ctx.count("failure_from:" + str(o.get("src")))
+        elif o["kind"] == "purge-to-executor":
+            ctx.count("executor_purge:" + ("forwarded" if o["known"] else "dropped"))
+    # the race of the property text: a purge handled while a payload of that dataset was still to come, then ignored
+    pp = [(o["h"], w.key2ds.get(o["key"], -1), o["op"]) for o in w.observations if o["kind"] == "shm-purge" and not o["pre"]["present"]]
+    if pp:
+        ctx.count("histories_with_purge_before_payload_stored")
     for k, key in (("dropped", "frames_dropped"), ("purge-cmd", "purge_commands"), ("shm-purge", "purges_done"), ("stored", "stores"),
-                   ("conflict", "redundant_transfers"), ("announced", "announcements"), ("ctrl-got", "fetch_deliveries"), ("failure", "transmit_failures")):
+                   ("conflict", "redundant_transfers"), ("announced", "announcements"), ("ctrl-got", "fetch_deliveries"),
+                   ("failure", "transmit_failures"), ("ctrl-published", "announcements_forwarded"), ("ctrl-failure", "failures_forwarded")):
         if kinds.get(k):
             ctx.count(key, kinds[k])
     for o in case["ops"]:
@@ -461,25 +777,45 @@ def _compare(ctx, runs):
 
 def correspond(ctx):
     from ekw.core import CORPUS_DIR
-    n = ctx.budget(240, 2500)
+    n = ctx.budget(200, 2500)
     maxops = ctx.budget(60, 120)
     cases = []
+    expects = {}
     for f in sorted(glob.glob(str(CORPUS_DIR / "C07_*.json"))):
         try:
-            cases.append(json.load(open(f))["case"])
+            j = json.load(open(f))
+            if j.get("expect"):
+                expects[len(cases)] = (j.get("witness_of"), j["expect"])
+            cases.append(j["case"])
         except Exception:
             pass
     ncorpus = len(cases)
     runs = []
     reported = set()
     for k in range(ncorpus + n):
-        case = cases[k] if k < ncorpus else gen_case(ctx.rng, ctx.rng.randint(8, maxops))
+        case = None
         try:
-            ops, outs, w = run_case(case)
+            if k < ncorpus:
+                case = cases[k]
+                ops, outs, w = run_case(case)
+            else:
+                case, ops, outs, w = gen_case(ctx.rng, ctx.rng.randint(8, maxops), with_run=True)
             w.drained = True
         except Exception as e:
             ctx.disagree("harness", {"case": case}, "real side runs", f"{type(e).__name__}: {e}")
             continue
+        if k in expects:
+            # the witness of a `_full_fails` theorem, replayed on the real code
+            name, exp = expects[k]
+            got_ = {"purge_dropped": any(o["kind"] == "purge-to-executor" and not o["known"] and [o["h"], o["ds"]] == exp.get("purge_dropped")
+                                         and not any(x["kind"] == "purge-forwarded" and x["op"] == o["op"] for x in w.observations)
+                                         for o in w.observations),
+                    "stored": any(o["kind"] == "stored" and o["op"] > 0 and [o["h"], w.key2ds.get(o["key"])] == exp.get("stored")
+                                  for o in w.observations)}
+            ok = all(got_[key] for key in exp)
+            ctx.count("witness:%s:%s" % (name, "reproduced" if ok else "NOT-reproduced"))
+            if not ok:
+                ctx.disagree("witness:" + str(name), {"case": case}, exp, got_)
         kinds = _stats(ctx, case, ops, w)
         nontrivial = bool(kinds.get("cmd")) and bool(kinds.get("dropped") or kinds.get("shm-purge") or any(
             o["kind"] == "fed" and o["dup"] for o in w.observations))
